@@ -400,6 +400,81 @@ func runC03(rc *fw.RunCtx) {
 				render("risor.Call("+name+")", err)
 			}
 		})
+		// the "template VM" host: vm.New + Run once, serve requests with
+		// Clone + Call, evaluate something else on the VM, serve again
+		api("template-vm", func() {
+			cfg := risor.NewConfig(opts...)
+			tsrc := "func serve(a) { return a * 2 }\ntotal := 0\n"
+			ast, err := parser.Parse(context.Background(), tsrc)
+			if err != nil {
+				return
+			}
+			code, err := compiler.Compile(ast, cfg.CompilerOpts()...)
+			if err != nil {
+				return
+			}
+			tm := vm.New(code, cfg.VMOpts()...)
+			serve := func(tag string) {
+				cl, err := tm.Clone()
+				render("template "+tag+" Clone", err)
+				if cl == nil {
+					return
+				}
+				fnObj, err := tm.Get("serve")
+				if err != nil || fnObj == nil {
+					return
+				}
+				if fn, ok := fnObj.(*object.Function); ok {
+					_, err = cl.Call(context.Background(), fn, []object.Object{object.NewInt(2)})
+					render("template "+tag+" Call", err)
+				}
+			}
+			serve("before-run") // (a clone of a VM that has never run)
+			render("template Run", tm.Run(context.Background()))
+			serve("after-run")
+			// something else is evaluated on the template VM (and fails)
+			_, err = risor.Eval(context.Background(), "nosuchfunction_zz(1)", append(append([]risor.Option{}, opts...), risor.WithVM(tm))...)
+			render("template Eval(other)", err)
+			serve("after-other-code")
+		})
+		// the notebook host: one incremental compiler and one VM; a cell is
+		// compiled but its run is skipped (or refused); then the host asks the VM
+		// about the names the compiler knows
+		api("notebook", func() {
+			cfg := risor.NewConfig(opts...)
+			c, err := compiler.New(cfg.CompilerOpts()...)
+			if err != nil {
+				return
+			}
+			ast1, err := parser.Parse(context.Background(), "cell1 := 1\n")
+			if err != nil {
+				return
+			}
+			code, err := c.Compile(ast1)
+			if err != nil {
+				return
+			}
+			nm := vm.New(code, cfg.VMOpts()...)
+			render("notebook Run#1", nm.Run(context.Background()))
+			ast2, err := parser.Parse(context.Background(), "cell2 := cell1 + 1\nfunc cellf() { return cell2 }\n")
+			if err != nil {
+				return
+			}
+			if _, err := c.Compile(ast2); err != nil {
+				return
+			}
+			// (no Run: the request's context had expired)
+			for _, n := range []string{"cell1", "cell2", "cellf", "nosuch"} {
+				_, err := nm.Get(n)
+				render("notebook Get("+n+")", err)
+			}
+			nm.GlobalNames()
+			nm.TOS()
+			render("notebook Run#2", nm.Run(context.Background()))
+			for _, n := range []string{"cell1", "cell2", "cellf"} {
+				nm.Get(n)
+			}
+		})
 		// a compile of garbage left-overs must also just return
 		api("parser.Parse/compiler.Compile", func() {
 			ast, err := parser.Parse(context.Background(), src+"\n)")
